@@ -1,4 +1,5 @@
 pub mod common;
+pub mod selftest;
 pub mod driver;
 pub mod alu;
 pub mod c01;
@@ -7,6 +8,7 @@ pub mod c03;
 pub mod c04;
 pub mod c05;
 pub mod c06;
+pub mod c07;
 
 use crate::engine::run::Ctx;
 
@@ -20,6 +22,8 @@ pub fn dispatch(id: &str, ctx: &Ctx) -> Option<i32> {
         "C04" => c04::run(ctx),
         "C05" => c05::run(ctx),
         "C06" => c06::run(ctx),
+        "C07" => c07::run(ctx),
+        "SELFTEST" => selftest::run(),
         _ => return None,
     })
 }
